@@ -94,8 +94,15 @@ theorem writeBigInt_is_bits (v : Int) (n : Nat) (hn : 1 ≤ n) (hlo : -(2 : Int)
   writeBigInt_eq v n hn hlo hhi
 
 /-- `WriteUnary(n)` writes `n` ones and a zero (both the `< 63` fast path and the loop). -/
-theorem writeUnary_is_bits (n : Nat) : writeUnary n = writeBitArray (List.replicate n true ++ [false]) :=
-  writeUnary_eq n
+theorem writeUnary_is_bits (n : Nat) (hn : n < 2 ^ 63) :
+    writeUnary n = writeBitArray (List.replicate n true ++ [false]) :=
+  writeUnary_eq n hn
+
+/-- Limit (witness, replayed on Go: corpus/C06/defects.ops): `WriteUnary(n)` takes a `uint`; for `n ≥ 2^63` the loop
+bound `int(n)` is negative, no one is written, and the call succeeds after writing a single 0 — the encoding of 0. -/
+theorem writeUnary_huge_witness :
+    (writeUnary (2 ^ 63) (BitString.new 8)).1 = .ok () ∧ abs (writeUnary (2 ^ 63) (BitString.new 8)).2 = [false] := by
+  decide +kernel
 
 /-- `minBitsRequired_eq`: the de Bruijn multiplication and table lookup equals the bit length for every uint64. -/
 theorem minBitsRequired_eq (v : Nat) (hv : v < 2 ^ 64) : minBitsRequired v = Ideal.bitLength v :=
@@ -131,24 +138,29 @@ theorem writeLimUint_is_bits (v n : Nat) (hn : n < 2 ^ 64) :
 
 /-! ## Reads -/
 
-/-- `ReadUint` on the byte-aligned path (cursor and width multiples of 8). -/
-theorem readUint_aligned (n : Nat) (s : BitString) (hi : Inv s) (hn : n ≤ 64) (h : s.rCursor + n ≤ s.len)
-    (_ha : s.rCursor % 8 = 0 ∧ n % 8 = 0) :
-    readUint n s = (.ok (bitsToNat (nextBits s n)), { s with rCursor := s.rCursor + n }) :=
-  readUint_ok n s hi.len_le_buf hn h
+/-- The byte-aligned path of `ReadUint` in isolation: `copy(buf[8-l:], s.buf[c:c+l]); BigEndian.Uint64(buf)` — the
+big-endian value of the `n/8` buffer bytes at byte `rCursor/8`, left-padded with zero bytes — is the value of the next
+`n` bits (cursor and width multiples of 8). -/
+theorem readUint_aligned (n : Nat) (s : BitString) (h : s.rCursor + n ≤ s.len) (hc : s.rCursor % 8 = 0)
+    (hn : n % 8 = 0) :
+    beNat (List.replicate (8 - n / 8) 0 ++ (s.buf.drop (s.rCursor / 8)).take (n / 8)) = bitsToNat (nextBits s n) :=
+  readUint_aligned_value s n h hc hn
 
-/-- `ReadUint` on the shifted 8-byte load path (`n < 57`, not both aligned), including loads that reach the end of the
-buffer (zero padded). -/
-theorem readUint_lt57 (n : Nat) (s : BitString) (hi : Inv s) (hn : n < 57) (h : s.rCursor + n ≤ s.len)
-    (_ha : ¬ (s.rCursor % 8 = 0 ∧ n % 8 = 0)) :
-    readUint n s = (.ok (bitsToNat (nextBits s n)), { s with rCursor := s.rCursor + n }) :=
-  readUint_ok n s hi.len_le_buf (by omega) h
+/-- The shifted 8-byte load of `ReadUint` in isolation: load up to 8 bytes from byte `rCursor/8` (zero padded when the
+buffer ends earlier), `>> (64 − n − off) & (2^n − 1)` is the value of the next `n` bits whenever `off + n ≤ 64` — this
+is why the guard `n < 57` (and also `n < 58`) is safe for every offset 0..7, and why `n < 59` (seed C06-1) is not. -/
+theorem readUint_lt57 (n : Nat) (s : BitString) (hi : Inv s) (h : s.rCursor + n ≤ s.len)
+    (hn : s.rCursor % 8 + n ≤ 64) :
+    let b := (s.buf.drop (s.rCursor / 8)).take 8
+    (beNat (b ++ List.replicate (8 - b.length) 0) >>> (64 - n - s.rCursor % 8)) &&& ((1 <<< n) - 1)
+      = bitsToNat (nextBits s n) :=
+  readUint_shift_value s n hi.len_le_buf h hn
 
-/-- `ReadUint` on the bit-loop path (57..64 bits, not both aligned). -/
-theorem readUint_loop (n : Nat) (s : BitString) (hi : Inv s) (hn : 57 ≤ n ∧ n ≤ 64) (h : s.rCursor + n ≤ s.len)
-    (_ha : ¬ (s.rCursor % 8 = 0 ∧ n % 8 = 0)) :
-    readUint n s = (.ok (bitsToNat (nextBits s n)), { s with rCursor := s.rCursor + n }) :=
-  readUint_ok n s hi.len_le_buf hn.2 h
+/-- The bit loop of `ReadUint` in isolation (`for i := n−1 … 0 { if mustReadBit() { res |= 1 << i } }`, any width). -/
+theorem readUint_loop (n : Nat) (s : BitString) (hi : Inv s) (h : s.rCursor + n ≤ s.len) :
+    readUintLoop n 0 s = (.ok (bitsToNat (nextBits s n)), { s with rCursor := s.rCursor + n }) := by
+  have := readUintLoop_ok n 0 s hi.len_le_buf h (by simp)
+  simpa using this
 
 /-- `readUint_refines`: for every cursor offset and every width 0..64, `ReadUint(n)` returns the big-endian value of
 the next `n` bits and advances the cursor by `n` (all three code paths). -/
